@@ -722,11 +722,11 @@ class C06(Prop, ScriptGen):
     table_groups = ['Opcodes']
     theorems = ['BtcVerif.C06.' + t for t in (
         'castToBool_equiv', 'num_encode_equiv', 'num_decode_equiv', 'num_operand_equiv', 'tokenise_equiv',
-        'predicates_equiv', 'step_equiv', 'eval_equiv_partial', 'eval_fails_iff_partial', 'eval_stack_partial',
+        'predicates_equiv', 'step_equiv', 'step_equiv_full', 'eval_equiv_partial', 'eval_fails_iff_partial', 'eval_stack_partial',
         'verify_equiv_partial', 'findAndDelete_equiv', 'eval_equiv', 'eval_fails_iff', 'eval_stack', 'verify_equiv')] + \
         ['BtcVerif.C06.Concrete.' + t for t in (
-            'rawSignatureHash_ignores_leading_codesep', 'codesepInsensitive_real', 'findAndDelete_coherent',
-            'eval_equiv_real', 'verify_equiv_real')]
+            'rawSignatureHash_ignores_leading_codesep', 'codesepInsensitive_real', 'hashesOK_real', 'sigHashOK_real',
+            'raises_real_iff', 'findAndDelete_coherent', 'eval_equiv_real', 'verify_equiv_real')]
     anchors = [('bitcoin/core/scripteval.py', f) for f in (
         '_EvalScript', '_CheckMultiSig', '_CheckSig', '_BinOp', '_UnaryOp', '_CastToBool', '_CastToBigNum',
         '_CheckExec', 'EvalScript', 'VerifyScript')] + \
@@ -738,11 +738,17 @@ class C06(Prop, ScriptGen):
     trusted_base = ['Spec.Script.Ref transcribes interpreter.cpp EvalScript/VerifyScript restricted to the four flags',
                     'btcmodel executable = compiled Model.* / Spec.* (Lean compiler)',
                     'signature checking: Crypto.Secp256k1 (strict DER, SEC1) stands for OpenSSL on the property\'s '
-                    'signature domain; sighash transcription in Driver/C06.lean (C03 proves the sighash itself)']
+                    'signature domain; the environment the driver evaluates is Model/ScriptEnvReal.realCtx, the term of '
+                    'Props/C06Concrete (RawSignatureHash = C03\'s model; negative indices: rawSignatureHashNeg, tied by '
+                    'the C07 generators at indices -1, -|vin|, -|vin|-1)']
     assumptions = ['signatures empty or strictly DER, public keys well-formed SEC1 or plainly malformed',
-                   'eval_equiv / verify_equiv: 0 <= inIdx; sigCheck insensitive to a leading OP_CODESEPARATOR of the '
-                   'script code (C03); hash outputs <= 520 bytes; EvalScript initial stack <= 1000 items < 2^32 bytes',
-                   'transaction fields in wire range (C01 WF)']
+                   'eval_equiv_real / verify_equiv_real: transaction fields in wire range (Spec.Sighash.FieldsWF); inIdx >= 0 '
+                   'or wrapping (-|vin| <= inIdx and -|vout| <= inIdx: IdxOK); EvalScript initial stack <= 1000 items of '
+                   '< 2^32 bytes; flags admissible for VerifyScript.  PROVED, no longer assumed: CodesepInsensitive '
+                   '(codesepInsensitive_real, from C03), digest lengths (hashesOK_real, from Proofs/CryptoLen), '
+                   'RawSignatureHash returns a digest on that domain (sigHashOK_real)',
+                   'abstract eval_equiv / verify_equiv: the same three facts as hypotheses on an arbitrary Ctx '
+                   '(SigHashOK, CodesepInsensitive, HashesOK)']
     rule = ('all 1-opcode programs x ~60 stacks x 12 admissible flag sets (exhaustive); grammar programs with IF nests, '
             'CODESEPARATOR/CHECKSIG with real signatures, CHECKMULTISIG 0..20 keys; limit probes at every bound +-1; '
             'VerifyScript templates x 12 flag sets; non-trivial = non-empty script; distinct by canonical request line')
